@@ -55,6 +55,10 @@ class SchemaGen:
                     vals = [(str(v), 'VAL_%d' % j) for j, v in enumerate(sorted(rng.sample(range(0, 120), k)))]
                 else:
                     vals = [(v, 'S_%d' % j) for j, v in enumerate(sorted(rng.sample(['AA', 'AB', 'B', 'CXX', 'D1', 'ZED', 'M', 'QQQQ', 'X9'], k)))]
+            if vals and rng.random() < 0.3:
+                # the description attribute is optional: f8c then uses the enum value itself as the description
+                j = rng.randrange(len(vals))
+                vals[j] = (vals[j][0], None)
             self.fields.append((self.num(), name, typ, vals))
             self.plain.append(name)
         for i in range(rng.randint(2, 6)):
@@ -194,7 +198,7 @@ class SchemaGen:
         for num, name, typ, vals in sorted(self.fields):
             if vals:
                 out.append("  <field number='%d' name='%s' type='%s'>" % (num, name, typ))
-                out += ["   <value enum='%s' description='%s' />" % v for v in vals]
+                out += [("   <value enum='%s' description='%s' />" % v) if v[1] is not None else ("   <value enum='%s' />" % v[0]) for v in vals]
                 out.append('  </field>')
             else:
                 out.append("  <field number='%d' name='%s' type='%s' />" % (num, name, typ))
